@@ -75,6 +75,10 @@ type presCase struct {
 	Type    string
 	Dynamic bool
 	Ops     []ops.Op
+	// Redecode > 0: right before step Redecode-1 the message is replaced by a fresh instance decoded
+	// (lazily, nothing touched) from its own encoding, so that the step acts on a field that may
+	// still be held in wire form
+	Redecode int `json:",omitempty"`
 }
 
 func checkDiscipline(md protoreflect.MessageDescriptor, seen map[protoreflect.FullName]bool) error {
@@ -188,6 +192,16 @@ func checkPresence(c presCase) error {
 	m := mcase.New(c.Type, c.Dynamic)
 	cur := &model.Msg{}
 	for i, op := range c.Ops {
+		if c.Redecode == i+1 {
+			b, err := proto.MarshalOptions{AllowPartial: true}.Marshal(m.Interface())
+			if err != nil {
+				return fmt.Errorf("Marshal before step %d: %v", i, err)
+			}
+			m = mcase.New(c.Type, c.Dynamic)
+			if err := (proto.UnmarshalOptions{AllowPartial: true}).Unmarshal(b, m.Interface()); err != nil {
+				return fmt.Errorf("Unmarshal of own output before step %d: %v", i, err)
+			}
+		}
 		if err := ops.ApplyModel(md, cur, op); err != nil {
 			return err
 		}
@@ -246,6 +260,21 @@ func checkPresence(c presCase) error {
 
 var types, rich = noConstrained(corpus.Modern()), noConstrained(corpus.ModernRich(20))
 
+// lazyTypes: the modern types that have [lazy = true] fields
+var lazyTypes = func() []string {
+	in := map[string]bool{}
+	for _, n := range types {
+		in[n] = true
+	}
+	var out []string
+	for _, n := range corpus.LazyCapable() {
+		if in[n] && len(corpus.LazyFields(mcase.Desc(n))) > 0 {
+			out = append(out, n)
+		}
+	}
+	return out
+}()
+
 // well-known types whose JSON form accepts only part of their values cannot serve as the top-level
 // type of the three-codec round trip (their fields are skipped inside other messages as well)
 func noConstrained(in []string) (out []string) {
@@ -287,12 +316,40 @@ func TestPresence(t *testing.T) {
 	mo.SkipField = gen.SkipConstrainedJSON
 	pbt.Run(t, pbt.Prop[presCase]{
 		Name: "presence",
-		Rule: "types: modern linked types (open/hybrid/opaque, proto2/proto3/editions) or dynamicpb; 1..25 legal reflection steps from the empty message with zero values a quarter of the time; well-known types with constrained JSON forms are skipped so that all three codecs can represent the state. non-trivial = final state holds an explicit-presence scalar set to its zero value, or the history clears a populated field",
+		Rule: "types: modern linked types (open/hybrid/opaque, proto2/proto3/editions) or dynamicpb; 1..25 legal reflection steps from the empty message with zero values a quarter of the time, in a third of the cases with the message replaced mid-history by a lazily decoded, untouched copy of itself (preferably right before a clear); well-known types with constrained JSON forms are skipped so that all three codecs can represent the state. non-trivial = final state holds an explicit-presence scalar set to its zero value, or the history clears a populated field",
 		Draw: func(t *rapid.T) presCase {
 			c := presCase{Type: gen.TypeName(types, rich).Draw(t, "type"), Dynamic: rapid.IntRange(0, 3).Draw(t, "dyn") == 0}
+			go_ := ops.GenOpts{Msg: mo, MaxDepth: 2, NoUnknown: true}
+			if len(lazyTypes) > 0 && rapid.IntRange(0, 7).Draw(t, "lazy-type") == 0 {
+				// a fixed share for types with [lazy = true] fields, with the top-level steps confined to
+				// those fields: set / clear / redecode / clear on a field that is held in wire form
+				c.Type, c.Dynamic = lazyTypes[rapid.IntRange(0, len(lazyTypes)-1).Draw(t, "lazy-name")], false
+				top := mcase.Desc(c.Type)
+				isLazy := map[protoreflect.FieldNumber]bool{}
+				for _, n := range corpus.LazyFields(top) {
+					isLazy[n] = true
+				}
+				go_.OnlyFields = func(fd protoreflect.FieldDescriptor) bool {
+					return fd.ContainingMessage() != top || isLazy[fd.Number()]
+				}
+			}
 			md := mcase.Desc(c.Type)
 			n := rapid.IntRange(1, 25).Draw(t, "steps")
-			c.Ops, _ = ops.DrawHistory(t, md, &model.Msg{}, n, ops.GenOpts{Msg: mo, MaxDepth: 2, NoUnknown: true})
+			c.Ops, _ = ops.DrawHistory(t, md, &model.Msg{}, n, go_)
+			if len(c.Ops) > 1 && rapid.IntRange(0, 2).Draw(t, "redecode") == 0 {
+				// prefer a clear step: clearing a field nobody has read since it was decoded
+				var clears []int
+				for i, op := range c.Ops {
+					if op.Kind == "clear" && i > 0 {
+						clears = append(clears, i)
+					}
+				}
+				if len(clears) > 0 && rapid.Bool().Draw(t, "redecode-before-clear") {
+					c.Redecode = clears[rapid.IntRange(0, len(clears)-1).Draw(t, "redecode-clear")] + 1
+				} else {
+					c.Redecode = rapid.IntRange(2, len(c.Ops)).Draw(t, "redecode-at")
+				}
+			}
 			return c
 		},
 		Check: checkPresence,
